@@ -593,7 +593,7 @@ pub fn late_dim_programs() -> Vec<(Prog, String)> {
         ("record", Elem::Rec, vec![]),
     ];
     for (dl, elem, dims) in &decls {
-        for way in 0..3 {
+        for way in 0..4 {
             let mut b = B::new();
             let shape = Shape { dims: dims.clone(), explicit: true };
             let mut d = if dims.is_empty() {
@@ -631,6 +631,17 @@ pub fn late_dim_programs() -> Vec<(Prog, String)> {
                         b.s(K::Call("Touch".into(), vec![])),
                     ];
                     (if way == 0 { "DIM SHARED after the first call of a SUB that writes the variable" } else { "DIM SHARED after the first call of a SUB that reads the variable" }, Prog { types: rec_types(), main, subs: vec![sub], declare: true, ..Default::default() })
+                }
+                3 => {
+                    // the same failing DIM statement inside a SUB, the trap is installed by the module
+                    if let K::Dim { vars, .. } = &mut d.k {
+                        vars.insert(0, DimVar { name: "B%".into(), ty: None, dims: vec![(None, var("N%"))] });
+                    }
+                    let body = vec![d, b.assign(loc.clone(), val.clone()), b.print(vec![st("sub"), st("["), loc.clone(), st("]")])];
+                    let id = b.id();
+                    let sub = SubDef { id, name: "Work".into(), is_function: false, params: vec![Param { name: "N%".into(), ty: None, is_array: false }], body, is_static: false };
+                    let main = vec![b.s(K::OnErrorResumeNext), b.s(K::Call("Work".into(), vec![num(-1)])), b.print(vec![st("main")])];
+                    ("an earlier variable of the same DIM statement fails inside a SUB, the module installed ON ERROR RESUME NEXT", Prog { types: rec_types(), main, subs: vec![sub], declare: true, ..Default::default() })
                 }
                 _ => {
                     // DIM B%(N%), A ...: the first variable fails (N% = -1) under ON ERROR RESUME NEXT
